@@ -297,6 +297,12 @@ def run(case):
                         violations.append({"mech": "drawing_differs", "detail": {
                             "glyph": n, "combos": [list(ref_key), list(k)], "beyond_tx_noise": True,
                             "a": str(ra)[:1500], "b": str(rb)[:1500]}})
+                elif fractional and a["merged"] != b["merged"] and _approx(
+                        a["merged"], b["merged"], 2.0 ** -15 * _count(a["merged"]) + 1e-9):
+                    # fractional operands are stored as 16.16 fixed-point DELTAS: the absolute
+                    # position of a point depends (by 2^-16 per operand) on how the path before
+                    # it was encoded
+                    bump("fractional_drawings_equal_within_16_16_operand_rounding")
                 elif a["merged"] != b["merged"]:
                     violations.append({"mech": "drawing_differs", "detail": {
                         "glyph": n, "combos": [list(ref_key), list(k)],
